@@ -37,6 +37,7 @@ class Engine:
         self.max_paths = max_paths
         self.deadline = (time.time() + deadline_s) if deadline_s else None
         self.complete = False
+        self.failed_claim = None
         ENG = self
 
     def check(self, *extra):
@@ -48,7 +49,9 @@ class Engine:
         return r
 
     def valid(self, claim):
-        return self.check(z3.Not(claim)) == z3.unsat
+        ok = self.check(z3.Not(claim)) == z3.unsat
+        if not ok and self.failed_claim is None: self.failed_claim = z3.Not(claim)     # counterexample models must satisfy it
+        return ok
 
     def model(self):
         r = self.check()
@@ -69,6 +72,7 @@ class Engine:
             self.pos = 0
             self.stack = stack
             self.solver.push()
+            self.failed_claim = None
             try:
                 r = fn(self)
                 self.npaths += 1
